@@ -410,11 +410,17 @@ func (gme *GCPMultiEndpoint) UpdateMultiEndpoints(meOpts *GCPMultiEndpointOption
 		}
 	}
 
-	// Trigger status update.
+	// Trigger status update. Every multiendpoint is told about its endpoints in their
+	// priority order: with a switching delay the first available endpoint it hears of
+	// becomes current at once and a better one only after the delay.
+	ready := make(map[string]bool, len(gme.pools))
 	for e, mc := range gme.pools {
-		s := mc.conn.GetState()
-		for _, me := range gme.mes {
-			me.SetEndpointAvailability(e, s == connectivity.Ready)
+		ready[e] = mc.conn.GetState() == connectivity.Ready
+	}
+	for name, meo := range meOpts.MultiEndpoints {
+		me := gme.mes[name]
+		for _, e := range meo.Endpoints {
+			me.SetEndpointAvailability(e, ready[e])
 		}
 	}
 	// The monitors look again: see monitor.
